@@ -150,6 +150,10 @@ CodeLoc(n) == IF n \in {"dropB_secbits", "dropC_secbits"} THEN "keep_capability"
 Indexed(n) == n \in {"mounts", "mounts_mkdir", "rlimits"}
 Fallible(n) == n \notin {"hostname", "domainname", "ucgA", "ucgB"}   \* results ignored by the code
 
+\* errno values of resource shortage on a loaded machine (EINTR EAGAIN ENOMEM ENFILE EMFILE ETXTBSY ENOSPC):
+\* a launch refused with one of them says nothing about the launcher; judged as "could not set the case up"
+TransientErrno == {4, 11, 12, 23, 24, 26, 28}
+
 \* C07 interpretation: does Start itself return the error?  (early-return modes report only what fails before the
 \* child's sync word; without a callback they report nothing but a failed clone)
 PosOf(n) == CHOOSE i \in 1..Len(StepOrder) : StepOrder[i] = (IF n = "mounts_mkdir" THEN "mounts" ELSE n)
